@@ -309,9 +309,10 @@ def transLoop (M : Machine) (i : Nat) (limited : Bool) : Nat → List Crumb → 
 abbrev Child := Nat → Option (List Crumb) → Option Int → World → Res RunOut
 
 /-- `while not done:` run the current state; follow its transition; stop on stasis or when it
-does not transit.  Returns the state the sub-machine stopped in and the stasis flag. -/
-def innerLoop (M : Machine) (child : Child) (i : Nat) (e : Option Int) : Nat → Nat → List Crumb →
-    World → Res (Nat × World × Bool)
+does not transit.  Returns the state the sub-machine stopped in and the stasis flag.
+`cycle`/`final` are the dfa's attributes (only `current` changes here). -/
+def innerLoop (child : Child) (i : Nat) (e : Option Int) (cycle final : Nat) : Nat → Nat →
+    List Crumb → World → Res (Nat × World × Bool)
   | 0, _, _, w => .error (.fuel, w)
   | f + 1, cur, seen, w =>
     match child cur (some seen) e w with
@@ -321,36 +322,39 @@ def innerLoop (M : Machine) (child : Child) (i : Nat) (e : Option Int) : Nat →
       else
         match r.target with
         | some t =>
-          innerLoop M child i e f t (r.ps.getD []) (r.w.setDfa i { (r.w.dfa M i) with cur := t })
+          innerLoop child i e cycle final f t (r.ps.getD [])
+            (r.w.setDfa i { cur := t, cycle := cycle, final := final })
         | none => .ok (cur, r.w, false)
 
-/-- `while self.loop() and not stasis:`; returns the number of sub-machine runs started -/
-def cycleLoop (M : Machine) (child : Child) (i init : Nat) (e : Option Int) : Nat → World →
-    Res (World × Nat)
-  | 0, w => .error (.fuel, w)
-  | f + 1, w =>
-    let d := w.dfa M i
-    if d.cycle < d.final then
-      let w0 := w.setDfa i { d with cur := init, cycle := d.cycle + 1 }
-      match innerLoop M child i e f init [w0.crumb (some init)] w0 with
+/-- `while self.loop() and not stasis:`; returns the number of sub-machine runs started and whether
+stasis ended the loop.  (A dfa is never a state of its own sub-machine - Python would block on its
+lock - so `cycle`/`final` are carried as loop variables and written to the world for `terminal`.) -/
+def cycleLoop (M : Machine) (child : Child) (i init : Nat) (e : Option Int) (final : Nat) :
+    Nat → Nat → World → Res (World × Nat × Bool)
+  | 0, _, w => .error (.fuel, w)
+  | f + 1, cycle, w =>
+    if cycle < final then
+      let w0 := w.setDfa i { cur := init, cycle := cycle + 1, final := final }
+      match innerLoop child i e (cycle + 1) final f init [w0.crumb (some init)] w0 with
       | .error x => .error x
       | .ok (cur, w1, stasis) =>
         if !isTerminal M w1 cur then .error (.nonterminal, w1)
-        else if stasis then .ok (w1, 1)
+        else if stasis then .ok (w1, 1, true)
         else
-          match cycleLoop M child i init e f w1 with
+          match cycleLoop M child i init e final f (cycle + 1) w1 with
           | .error x => .error x
-          | .ok (w2, k) => .ok (w2, k + 1)
-    else .ok (w, 0)
+          | .ok (w2, k, st) => .ok (w2, k + 1, st)
+    else .ok (w, 0, false)
 
 /-- little-endian value of a byte string (`struct.unpack('<…')`) -/
 def leNat : List Nat → Nat
   | [] => 0
   | b :: r => b + 256 * leNat r
 
-/-- `dfa_base.delegate`, then `terminate` (normal completion only) -/
+/-- `dfa_base.delegate`, then `terminate` (normal completion only).  Also reports the number of
+sub-machine runs and the stasis flag (not used by `run`; the subject of `repeat_exact`). -/
 def delegate (M : Machine) (child : Child) (i : Nat) (e : Option Int) (f : Nat) (w : World) :
-    Res World :=
+    Res (World × Nat × Bool) :=
   match (M.st i).kind with
   | .dfa init rep store =>
     let (n, w0) := resolve w rep
@@ -358,14 +362,14 @@ def delegate (M : Machine) (child : Child) (i : Nat) (e : Option Int) (f : Nat) 
     let w1 := w0.setDfa i { d with cycle := 0, final := n.getD 1 }
     let before := w1.total
     let sent0 := w1.sent
-    match cycleLoop M child i init e f w1 with
+    match cycleLoop M child i init e (n.getD 1) f 0 w1 with
     | .error x => .error x
-    | .ok (w2, _) =>
+    | .ok (w2, k, st) =>
       match store with
-      | none => .ok w2
-      | some k =>
-        .ok (w2.setField k (leNat ((before.take (w2.sent - sent0).toNat).take (n.getD 1))))
-  | _ => .ok w
+      | none => .ok (w2, k, st)
+      | some fld =>
+        .ok (w2.setField fld (leNat ((before.take (w2.sent - sent0).toNat).take (n.getD 1))), k, st)
+  | _ => .ok (w, 0, false)
 
 /-! ### `state.run` -/
 
@@ -388,7 +392,7 @@ def runState (M : Machine) : Nat → Child
       let e' := shrink e w3.sent lim
       match delegate M (runState M f) i e' f w3 with
       | .error x => .error x
-      | .ok w4 =>
+      | .ok (w4, _, _) =>
         let limited := match e' with
           | some x => decide (x ≤ w4.sent)
           | none => false
@@ -405,12 +409,6 @@ def runState (M : Machine) : Nat → Child
 
 /-! ### the outermost run: `with machine: for m,s in machine.run( source=…, data=… ): …` -/
 
-structure Final where
-  sent     : Int
-  peek     : Option Sym
-  terminal : Bool
-  dfas     : List (Nat × DfaSt)
-deriving Repr
 
 def dfaStates (M : Machine) (w : World) : Nat → List (Nat × DfaSt)
   | 0 => []
